@@ -256,7 +256,7 @@ prop( 'C13', [ 'S-COMPLETE', 'P-MATCH', 'P-FRESH', 'P-BUNDLE', 'P-DISCARD', 'P-A
       not_decided='behaviour at each byte offset of a cut - the rules show that every failure kind has a raising/terminating path, not what the kernel delivers.',
       technique='sibling cross-check of drivers (counter feed analysis); dominance on the CFG; guard-shape matching; call-site protection (lexical with/try)' )
 
-prop( 'C15', [ 'B-ROUTE', 'D-REFUSE', 'C-MAIN', 'S-STATUS' ],
+prop( 'C15', [ 'B-ROUTE', 'D-REFUSE', 'C-MAIN', 'S-STATUS', 'T-SEGMENTS', 'P-BUNDLE' ],
       decides='B-ROUTE: the boolean acceptance expression guarding local dispatch in UCMM.request (including its enclosing '
               '`if self.route_path is not None`) is evaluated on every cell of the finite abstract domain - configured personality in '
               '{None, False, 0, [], one-segment list, two-segment list with an address link} x request route path in {absent, empty, equal, '
@@ -265,7 +265,7 @@ prop( 'C15', [ 'B-ROUTE', 'D-REFUSE', 'C-MAIN', 'S-STATUS' ],
               'route_path.segment list; D-REFUSE: with a configured personality the acceptance test dominates the local dispatch '
               '(no tag access when refused) and lies inside the try whose handler stores a non-zero status (S-STATUS); C-MAIN: --simple '
               'yields route_path False, --route-path X yields parse_route_path( X ), default None, and a config-file route path only fills a '
-              'missing run-time one.',
+              'missing run-time one.  T-SEGMENTS: the port / link segment encodings (incl. the 0x0F extended-port escape) produced for a textual route path are the ones the parser decodes.  P-BUNDLE: the client sends every bundle along its own route / send path (paths recorded per bundle, cleared at each flush).',
       not_decided='textual route-path parsing (string -> segments) over all strings.',
       technique='exhaustive evaluation of a boolean AST over a finite abstract domain (decision-table check); dominance on the CFG' )
 
